@@ -18,7 +18,7 @@ one() {
   echo "seed=$s check=$p -> $v"
 }
 export -f one
-for s in $(ls seeded | grep '^C'); do grep -q '"obsolete"' seeded/$s/meta.json && continue; b="${s%r3}"; b="${b%r2}"; b="${b%[bcd]}"; rel="${REL[$s]:-${REL[$b]}}"; [ -n "${OWN_ONLY:-}" ] && rel="${rel%% *}"; for p in $rel; do echo "$s $p"; done; done \
+for s in $(ls seeded | grep '^C'); do grep -q '"obsolete"' seeded/$s/meta.json && continue; b="${s%r3}"; b="${b%r2}"; b="${b%[bcde]}"; rel="${REL[$s]:-${REL[$b]}}"; [ -n "${OWN_ONLY:-}" ] && rel="${rel%% *}"; for p in $rel; do echo "$s $p"; done; done \
   | xargs -P "$par" -L 1 bash -c 'one $0 $1' | tee "$tmp/raw.txt"
 sort "$tmp/raw.txt" > "$out"
 rm -rf "$tmp"
